@@ -24,12 +24,22 @@ class Workspace:
         for f in world["files"]:
             self.files[f["name"]] = {"doc": f["doc"], "torn": False, "format": f["format"]}
 
-    def apply_pre(self, pre: List[Dict[str, Any]]) -> None:
+    def apply_pre(self, pre: List[Dict[str, Any]], events: Optional[List[Dict[str, Any]]] = None) -> None:
         for p in pre:
             if p["kind"] in ("truncate", "flip_byte") and p["path"] in self.files:
                 self.files[p["path"]]["torn"] = True
             if p["kind"] == "remove":
                 self.files.pop(p["path"], None)
+        # a flipped byte may leave a valid document with other content: the session reports what is on disk
+        for ev in events or []:
+            if ev.get("ev") == "fault_fired" and ev.get("kind") == "flip_byte" and ev.get("path") in self.files:
+                f = self.files[ev["path"]]
+                if ev.get("valid") and isinstance(ev.get("doc"), dict) and isinstance(ev["doc"].get("traceEvents"), list):
+                    f["doc"] = ev["doc"]
+                    f["torn"] = False
+                    f["flipped"] = True
+                else:
+                    f["torn"] = True
 
 
 def gen_env(rng: Rng, n_ranks: int, faulty: bool) -> Dict[str, Any]:
@@ -108,7 +118,10 @@ def gen_plan(rng: Rng, tier: str, faulty: bool, profile: str = "loader",
         if faulty:
             fr = r.fork("faults")
             victim = fr.choice(world["files"])["name"]
-            kind = fr.weighted([("truncate", 4), ("read_eio", 3), ("vanish", 3), ("no_access", 1), ("none", 1)])
+            kind = fr.weighted([("truncate", 4), ("read_eio", 3), ("vanish", 3), ("no_access", 1), ("none", 1), ("flip_byte", 3)])
+            if kind == "flip_byte":
+                sess["pre"].append({"kind": "flip_byte", "path": victim, "pos": fr.below(1 << 30),
+                                    "mask": fr.choice([0x01, 0x02, 0x10, 0x20, 0x80, 0xFF])})
             if kind == "truncate":
                 sess["pre"].append({"kind": "truncate", "path": victim,
                                     "fraction": fr.choice([0.0, 0.1, 0.5, 0.9, 0.99])})
@@ -328,7 +341,7 @@ def check(plan: Dict[str, Any], execution: Dict[str, Any], props: Optional[Set[s
     ws = Workspace(plan["world"])
     collect_probes(res, execution)
     for si, (sess, sx) in enumerate(zip(plan["sessions"], execution["sessions"])):
-        ws.apply_pre(sess.get("pre", []))
+        ws.apply_pre(sess.get("pre", []), sx["events"])
         faults_active = bool(sess.get("pre")) or bool(sess.get("env", {}).get("faults"))
         env = sess.get("env", {})
         low_memory = int(0.8 * env.get("mem_available", 1 << 40) / max(env.get("tracemalloc_peak", 1), 1)) < 1
